@@ -14,6 +14,14 @@ import time
 from collections import Counter
 
 
+def _strip_patch(call: str) -> str:
+    """CrossHair appends ' with crosshair.patch_to_return({...})' when a path consumed a patched
+    nondeterministic source (e.g. time.monotonic of a stock loop); harnesses never depend on those,
+    and a counterexample that did would fail to reproduce natively (harness error, never a VIOLATION)."""
+    i = call.find(" with crosshair.patch_to_return(")
+    return call[:i] if i >= 0 else call
+
+
 def main() -> None:
     mod_name, fn_name, cond_to, path_to = sys.argv[1:5]
     t0 = time.time()
@@ -78,7 +86,7 @@ def main() -> None:
                 detail = m.message
                 mm = re.search(r"when calling (.*?)(?: \(which returns|$)", m.message, re.S)
                 if mm:
-                    call = mm.group(1).strip()
+                    call = _strip_patch(mm.group(1).strip())
                 break
     elif all(s == MessageType.CONFIRMED for s in states):
         status = "confirmed"
@@ -109,7 +117,7 @@ def main() -> None:
                 for m in tmsgs:
                     mm = re.search(r"when calling (.*?)(?: \(which returns|$)", m.message, re.S)
                     if mm:
-                        out["twin_call"] = mm.group(1).strip()
+                        out["twin_call"] = _strip_patch(mm.group(1).strip())
             else:
                 twin = "not-refuted:" + ",".join(m.state.name for m in tmsgs)
     out["twin"] = twin
